@@ -28,6 +28,12 @@ try:
         res[c] = dict(rc=p.returncode, keys=keys[:12])
         print('%s rc=%d %s' % (c, p.returncode, 'CAUGHT: ' + '; '.join(keys[:4]) if p.returncode == 1 else ('NOT CAUGHT' if p.returncode == 0 else 'INCONCLUSIVE ' + out[-400:])))
     shutil.rmtree(ev, ignore_errors=True)
-    json.dump(res, open(os.path.join(d, 'verif_result.json'), 'w'), indent=1)
+    mp = os.path.join(d, 'meta.json')
+    try:
+        m = json.load(open(mp))
+    except Exception:
+        m = {}
+    m.setdefault('verif_checks', {}).update(res)
+    json.dump(m, open(mp, 'w'), indent=1)
 finally:
     subprocess.call(['git', '-C', '/repo', 'worktree', 'remove', '--force', wt])
